@@ -91,11 +91,15 @@ class SRP:
         if size > len(data):
             raise CouldNotParseKNXIP("SRP is larger than actual data size.")
 
-        return SRP(
-            srp_type=SearchRequestParameterType(data[1] & 0x7F),
-            mandatory=bool(data[1] >> SRP.MANDATORY_BIT_INDEX),
-            data=data[2:size],
-        )
+        try:
+            return SRP(
+                srp_type=SearchRequestParameterType(data[1] & 0x7F),
+                mandatory=bool(data[1] >> SRP.MANDATORY_BIT_INDEX),
+                data=data[2:size],
+            )
+        except (ValueError, ConversionError) as err:
+            # unknown parameter type or payload not matching the parameter type
+            raise CouldNotParseKNXIP("SRP has invalid type or payload.") from err
 
     @staticmethod
     def with_programming_mode() -> SRP:
